@@ -55,7 +55,27 @@ func c03Dots(kinds ...xp.StepKind) *xp.Node {
 	return xp.PathNode(p)
 }
 
+// c03Abs: an absolute path as a whole operand (what stands before it must be read as an operator: 2 * /a/b)
+func c03Abs(names ...string) *xp.Node {
+	p := xp.RelName(names...)
+	p.Path.Root = xp.RootAbs
+	return p
+}
+
+func c03HasAbsPath(e *xp.Node) bool {
+	a := false
+	xp.Walk(e, false, func(n *xp.Node) {
+		if n.Kind == xp.KPath && n.Path.Root == xp.RootAbs {
+			a = true
+		}
+	})
+	return a
+}
+
 func c03Operand(i int) *xp.Node {
+	if i%13 == 12 {
+		return [](*xp.Node){c03Abs("n1"), c03Abs("a", "b")}[(i/13)%2]
+	}
 	switch i % 11 {
 	case 8:
 		// abbreviated steps as whole operands: what follows them must still be read as an operator
@@ -193,7 +213,7 @@ var c03EnumList = c03Enum()
 
 func c03Random(r *core.Rng, budget int) *xp.Node {
 	if budget <= 0 {
-		return c03Operand(r.Intn(88))
+		return c03Operand(r.Intn(143))
 	}
 	switch r.Intn(12) {
 	case 0:
@@ -418,7 +438,7 @@ func (p *c03) check(e *xp.Node, r *core.Rng, res *core.CaseResult) {
 		}
 	}
 	// tie the shape to the right value
-	if !hasUnion(e) && !c03HasDotStep(e) && ref.out.Err == "" && ref.out.Panic == "" {
+	if !hasUnion(e) && !c03HasDotStep(e) && !c03HasAbsPath(e) && ref.out.Err == "" && ref.out.Panic == "" {
 		want := xp.Eval(e, func(pn *xp.Node) xp.Val {
 			var names []string
 			for _, s := range pn.Path.Steps {
